@@ -241,6 +241,13 @@ def impl_run(case):
         if case.get("reusebuf"):
             psi0_arg = psi0.copy()           # the caller's work buffer
         solver = vqe.VQE(ansatz=a, optimizer=opt, initial_state=psi0_arg, measure_method="statevector")
+        # secondary observables (number operators n_0, n_0 + n_1, and a non-diagonal Hermitian string sum): before the first run there is no state
+        Po, Ws, Ps = qib.operator.PauliOperator, qib.operator.WeightedPauliString, qib.operator.PauliString
+        zstr = lambda k: Ps.from_string("".join("Z" if i == k else "I" for i in range(L)))
+        sec = [Po([Ws(Ps.identity(L), 0.5), Ws(zstr(0), -0.5)]),
+               Po([Ws(Ps.identity(L), 1.0), Ws(zstr(0), -0.5), Ws(zstr(L - 1), -0.5)]),
+               Po([Ws(Ps.from_string("X" + "Y" * (L - 1)), 0.75), Ws(Ps.from_string("Y" + "I" * (L - 1)), -1.25)])]
+        sec_before = solver.expectation_secondary_ops(sec)
         if case.get("reusebuf"):
             # ... which the caller refills (another occupation) after the solver was built: the solver keeps the state it was given
             psi0_arg[:] = 0.0
@@ -267,7 +274,12 @@ def impl_run(case):
         vqe.measure_expectation_statevector = real_measure
     Ux = a.as_matrix(res.x).toarray()
     state = Ux @ psi0
+    try:
+        sec_after = [complex(np.asarray(v)) for v in solver.expectation_secondary_ops(sec)]
+    except Exception as e:
+        sec_after = f"{type(e).__name__}: {e}"[:160]
     return {"raised": None, "fun": complex(res.fun), "nfev": len(energies), "x": [float(v) for v in res.x],
+            "_sec_before": sec_before, "_sec_after": sec_after, "_sec_mats": [m_.as_matrix().toarray() for m_ in sec],
             "_energies": energies, "_state": state, "_strings": op_strings(pham), "_H": pham.as_matrix().toarray()}
 
 
@@ -487,6 +499,18 @@ def oracle(case, o):
             break
     if es and not any(close(o["fun"], e) for e in es):
         bad.append(("C20:run:fun-not-evaluated", "res.fun is none of the evaluated energies"))
+    # secondary observables: none before the first run; afterwards psi^dagger O psi in the final ansatz state U(x_opt) psi0
+    if "_sec_after" in o:
+        if o["_sec_before"] is not None:
+            bad.append(("C20:secondary:value-before-run", f"expectation_secondary_ops returned {o['_sec_before']} before any run"))
+        if isinstance(o["_sec_after"], str):
+            bad.append(("C20:secondary:raised", o["_sec_after"]))
+        else:
+            for k_, (v, Om) in enumerate(zip(o["_sec_after"], o["_sec_mats"])):
+                want = np.vdot(o["_state"], Om @ o["_state"])
+                if not close(v, want):
+                    bad.append(("C20:secondary:not-expectation-of-final-state", f"secondary observable {k_}: reported {v} != psi^dagger O psi = {want} for psi = U(res.x) psi0"))
+                    break
     # the reported energy is the expectation value of the operator AS PASSED (its current state) in the reported final ansatz state
     st = o["_state"]
     if not close(o["fun"], np.vdot(st, H @ st)):
